@@ -9,6 +9,7 @@
                                                 that LAPACK trtrs reads
      A.sum(axis=0)   (1-D result)             colsum A   (row vector)
      M /= v          (v 1-D, broadcasting)    coldiv M v
+     np.multiply(M, v) (v 1-D, broadcasting)  colmul M v
      X.dot(Y), X.T, np.eye, np.diag([x]*k),   mulmx, trmx, 1%:M, x%:M,
      np.tensordot(X, D, axes=(1, 1))          X *m D^T
    1-D numpy arrays are row vectors.  No proofs here. *)
@@ -35,5 +36,9 @@ Definition colsum m n (A : 'M[F]_(m, n)) : 'rV[F]_n := \row_j \sum_i A i j.
 
 Definition coldiv m n (M : 'M[F]_(m, n)) (v : 'rV[F]_n) : 'M[F]_(m, n) :=
   \matrix_(i, j) (M i j / v 0 j).
+
+(* np.multiply(M, v) with v 1-D: every column j of M is multiplied by v[j] *)
+Definition colmul m n (M : 'M[F]_(m, n)) (v : 'rV[F]_n) : 'M[F]_(m, n) :=
+  \matrix_(i, j) (M i j * v 0 j).
 
 End NumpyOps.
